@@ -134,15 +134,15 @@ func oneSleep(r *R) {
 		ctx = root
 	case 1:
 		remaining = pos*2 + time.Duration(1+r.Choose(5, "far"))*time.Second
-		ctx = NewDeadlineCtx(root, "far", remaining)
+		ctx = NewDeadlineCtxExact(root, "far", remaining)
 		hasDeadline = true
 	case 2:
 		remaining = pos / time.Duration(2+r.Choose(3, "frac"))
-		ctx = NewDeadlineCtx(root, "inside", remaining)
+		ctx = NewDeadlineCtxExact(root, "inside", remaining)
 		hasDeadline = true
 	case 3:
 		remaining = pos - time.Nanosecond
-		ctx = NewDeadlineCtx(root, "just-inside", remaining)
+		ctx = NewDeadlineCtxExact(root, "just-inside", remaining)
 		hasDeadline = true
 	case 4:
 		remaining = pos + time.Nanosecond
@@ -159,11 +159,11 @@ func oneSleep(r *R) {
 			r.Probe("sleep-deadline-exactly-d-away")
 			break
 		}
-		ctx = NewDeadlineCtx(root, "just-beyond", remaining)
+		ctx = NewDeadlineCtxExact(root, "just-beyond", remaining)
 		hasDeadline = true
 	case 11:
 		remaining = pos / time.Duration(2+r.Choose(3, "frac"))
-		ctx = NewDeadlineCtx(root, "hidden-deadline", remaining)
+		ctx = NewDeadlineCtxExact(root, "hidden-deadline", remaining)
 		ctx.C = hiddenDeadline{ctx.C}
 		r.Probe("sleep-context-hides-its-deadline")
 	case 5:
@@ -179,7 +179,7 @@ func oneSleep(r *R) {
 		}
 	case 7, 8:
 		remaining = pos*2 + time.Duration(1+r.Choose(5, "far"))*time.Second
-		ctx = NewDeadlineCtx(root, "far-cancelled", remaining)
+		ctx = NewDeadlineCtxExact(root, "far-cancelled", remaining)
 		hasDeadline = true
 		if kind == 8 {
 			ctx.Cancel()
